@@ -41,7 +41,7 @@ class RefOff(Exception):
 
 def new_state():
     return {
-        "tok": [],  # [task, lineage, ctx|None, attempt, is_retry]
+        "tok": [],  # [task, lineage, ctx|None, attempt, is_retry, src_task|None, optional]
         "run": [],  # [task, lineage, ctx, attempt, items_state|None]
         "arr": {},  # lkey(join, lineage) -> {"from": [[task, ctx], ...], "fired": n, "pending": bool}
         "execs": {},  # lkey -> number of executions started (attempts of one visit count once)
@@ -54,6 +54,7 @@ def new_state():
         "vals": {},  # version id -> value (to recognise a stale value when one is offered)
         "last": {},  # lkey -> [ctx, status] of the latest completed execution (rerun requests)
         "unhandled": [],  # [task, lineage] of failed executions nothing handled (default rerun set)
+        "handled_terminal": [],  # failed executions handled by a command only (no successor task)
     }
 
 
@@ -137,7 +138,7 @@ class Ref(object):
             for k, b in ctx0.items():
                 g["vals"][b[1]] = b[0]
         for r in self.d.roots():
-            g["tok"].append([r, [], ctx0, 0, False])
+            g["tok"].append([r, [], ctx0, 0, False, None, False])
 
     # ------------------------------------------------------------ offers
     def join_ctx(self, g, task, lineage):
@@ -159,6 +160,7 @@ class Ref(object):
         for i, t in enumerate(g["tok"]):
             if t[0] == task and t[1] == lineage:
                 del g["tok"][i]
+                g["last_consumed_optional"] = bool(len(t) > 6 and t[6])
                 ctx = t[2]
                 if d.is_join(task):
                     k = lkey(task, lineage)
@@ -207,6 +209,7 @@ class Ref(object):
                 "executions_so_far": min(ran, 2),
                 "known_task": task in d.tasks,
                 "has_items": has_items,
+                "has_retry_policy": bool(task in d.tasks and d.retry_policy(task)),
             },
             "task %s offered on lineage %s but no satisfied transition (token) is due" % (task, lineage),
         )
@@ -261,7 +264,7 @@ class Ref(object):
             info["retry_expected"] = will
             if will:
                 del g["run"][i]
-                g["tok"].append([task, lineage, ctx, attempt + 1, True])
+                g["tok"].append([task, lineage, ctx, attempt + 1, True, None, False])
                 info["retried"] = True
                 return info
         del g["run"][i]
@@ -312,16 +315,18 @@ class Ref(object):
                     info["targets"].append([tgt, lineage, "arrival %d/%d" % (n, req)])
                     if n >= req and not a["pending"] and (a["fired"] == 0 or d.in_cycle(tgt)):
                         a["pending"] = True
-                        g["tok"].append([tgt, lineage, None, 0, False])
+                        g["tok"].append([tgt, lineage, None, 0, False, task, False])
                 else:
                     nl = self.child_lineage(lineage, task, tidx, tgt)
-                    g["tok"].append([tgt, nl, new_ctx, 0, False])
+                    g["tok"].append([tgt, nl, new_ctx, 0, False, task, False])
                     info["targets"].append([tgt, nl, "token"])
         info["handled"] = handled
         g["last"][lkey(task, lineage)] = [ctx, status]
         if status == "failed" and not handled:
             g["fatal"].append("unhandled failure of %s" % task)
             g["unhandled"].append([task, lineage])
+        elif status == "failed" and not info["targets"]:
+            g["handled_terminal"].append([task, lineage])
         return info
 
     def _engine_truth(self, rec, task, tidx, tr):
@@ -344,7 +349,7 @@ class Ref(object):
 
     # ------------------------------------------------------------ end of run
     def pending_unconsumed(self, g):
-        return [[t[0], t[1]] for t in g["tok"]]
+        return [[t[0], t[1]] for t in g["tok"] if not (len(t) > 6 and t[6])]
 
     def partial_joins(self, g):
         """Joins with >=1 arrival, below requirement, never fired."""
